@@ -264,6 +264,17 @@ def run(ctx, report: Report) -> None:
     # ---- R2 ------------------------------------------------------------------------------------------------
     r2 = report.rule('C14-R2', 'parser and matcher objects are call-local', floor=6)
     percall = {'css_parser.CSSParser', 'css_match.CSSMatch', 'css_parser._Selector', 'css_match._FakeParent'}
+    # further per-call classes: package classes that are not value classes and are only ever constructed inside functions (a parse
+    # state, a cursor, a context object): storing a per-call object in a field of such an object does not publish it
+    ctor_sites = {}
+    for mn_, mod_ in src.mods.items():
+        for n_ in ast.walk(mod_.tree):
+            if isinstance(n_, ast.Call):
+                cref_ = src.resolve_class_ref(mod_, n_.func)
+                if cref_:
+                    ctor_sites.setdefault(cref_, []).append(mod_.enclosing_function(n_))
+    percall_holders = {c for c, sites in ctor_sites.items() if c not in imm and all(q_ is not None and not q_.endswith('>') for q_ in sites)
+                       and not any(b.split('.')[-1] in ('Exception', 'NamedTuple') for b in [unparse(x) for x in src.cls(c)[1].bases])} | percall
     for mn, mod in src.mods.items():
         for n in ast.walk(mod.tree):
             if not isinstance(n, ast.Call):
@@ -291,6 +302,10 @@ def run(ctx, report: Report) -> None:
                 how = f'argument of {cn}'
             elif isinstance(par, (ast.List, ast.Tuple)) and fnq is not None:
                 how, ok = 'element of a local list', True
+            elif isinstance(par, (ast.Assign, ast.AnnAssign)) and fnq is not None and '.' in fnq and all(
+                    isinstance(t, ast.Attribute) and isinstance(t.value, ast.Name) and t.value.id == 'self'
+                    for t in (par.targets if isinstance(par, ast.Assign) else [par.target])) and f'{mn}.{fnq.split(".")[0]}' in percall_holders:
+                how, ok = f'field of a per-call {fnq.split(".")[0]} object', True
             if fnq is None or fnq.endswith('>'):
                 ok = ok and how == 'receiver of an immediate method call'
             r2.instance({'construction': f'{mn}.{fnq or "<module>"}: {unparse(n)[:60]}', 'use': how, 'call_local': ok},
